@@ -5,6 +5,7 @@ import Driver.Pyg
 import Driver.Lit
 import Driver.Ssbs
 import Driver.Writer
+import Driver.SmBuilder
 open Lean Drv
 
 /-- dispatch on the prefix of "op" -/
@@ -18,6 +19,7 @@ def dispatch (j : Json) : R Json := do
   | "lit" => LitD.handle op j
   | "ssbs" => SsbsD.handle op j
   | "writer" => WriterD.handle op j
+  | "smb" => SmbD.handle op j
   | _ => throw s!"unknown op {op}"
 
 partial def loop (h : IO.FS.Stream) (out : IO.FS.Stream) : IO Unit := do
